@@ -9,7 +9,11 @@ PROP = dict(
          "(bad signature, momentum signed by a non-elected pillar, changes hash flipped and re-signed, content header not matching the delivered block, missing / extra / tampered / swapped account block; "
          "surplus account blocks of every kind: a made-up send block of an embedded contract (never looked at by InsertChain) added or put in the place of a named block, a VALID signed user block generated on the producer in the very state "
          "the receiver is in at that point - of an account with and without blocks in the momentum -, a block named by a later momentum of the batch or beyond, an exact or a tampered duplicate of a named block in front of / behind it), "
-         "duplicates, a removed middle element, a batch starting above the fork point, reversed batches, crafted heights (0, frontier+k, 2^64-1), the empty batch. The receiver's unconfirmed pool is filled "
+         "duplicates, a removed middle element, a batch starting above the fork point, reversed batches, crafted heights (0, frontier+k, 2^64-1), the empty batch. "
+         "Momentums honest in everything but their slot (content, changes hash from the real supervisor, hash, signature): stamped with second 1..9 of a slot by the pillar elected for that slot - one, or 2..9 of them "
+         "with increasing seconds inside ONE slot, in the slot of a momentum the receiver knows / of one delivered in front / of a slot without a momentum at its start, with 0..3 honest momentums produced on top, "
+         "as extension and as side chain that is longer than the receiver's only thanks to them -, stamped at the start of a slot 1..3 later by this slot's pillar, signed by the pillar of a slot 1..3 before / after "
+         "(and, as control, re-stamped to another slot start by that slot's pillar: adopted); every adopted momentum is checked against a reference election (producers of the tick from the election manager, slot arithmetic in the harness). The receiver's unconfirmed pool is filled "
          "through the verified path (blocks of busy and of quiet accounts acknowledging its frontier or a recent own momentum) and batches are delivered that carry those very blocks: included by an honest "
          "producer where they are valid on its chain, included without verification (force-added / written into the content) where they are not (side chains forking below the acknowledged momentum). "
          "Another writer served first on the insert lock (a ChainBridge over a wrapper of the node's chain whose AcquireInsert runs a callback once before delegating): the node's own pillar producing 1..3 momentums "
@@ -32,7 +36,10 @@ PROP = dict(
                  "momentum content vs delivered blocks (verifier.Momentum: as many distinct delivered blocks as headers, every header names one) is part of the oracle mvalid; it is stated and proved on the concrete verifier model in C05 (C05_accepted_content_exact) and, on the real node, by the oracles adopted-momentum-delivered-with-exactly-its-account-blocks and pool-holds-nothing-that-rode-along-with-an-adopted-momentum",
                  "writers of one node are serialised by the insert lock: another writer is a state transformer applied before InsertChain reads (insert_chain_locked); the harness realises it deterministically by running the other writer from a hook in front of the real AcquireInsert",
                  "the local store is a well-formed chain (consecutive heights, linked hashes) where the theorems say wf_chain",
-                 "momentum hashes are compared through 40-bit identifiers in the correspondence check"],
+                 "momentum hashes are compared through 40-bit identifiers in the correspondence check",
+                 "the oracle adopted-momentum-stamped-at-slot-start-by-elected-pillar trusts the election manager for the ORDER of the producers of a tick (electionManager.ElectionByTick through the hook consensus.VerifElectionByTick, "
+                 "evaluated on the receiver's chain after the call); which slot a timestamp belongs to and that it is the slot's first second is computed by the harness from the genesis time, BlockTime and NodeCount, "
+                 "not by consensus.GetMomentumProducer / VerifyMomentumProducer"],
 )
 META = dict(
     text="Machine-checked Coq theorems about a statement-by-statement Gallina model of ChainBridge.InsertChain and the account pool around it, for all local chains and pools, all delivered batches and all verification oracles "
